@@ -152,6 +152,14 @@ def c11(pid, tier, replay):
                             inst["builder_flags"] = fl
                         insts.append(inst)
                         k += 1
+        # escapes: one that lex drops, followed in the same regular expression by escaped regex
+        # metacharacters that must stay escaped (with and without a start-state prefix)
+        for j, st in enumerate(([], ["E"])):
+            erules = [dict(re=r, name="E%d" % k, states=list(st), target=None, quote="'") for k, r in enumerate(genlex.ESCAPE_COMBOS)] + \
+                     [dict(re="[\\t\\x20\\n]+", name=None, states=list(st), target=None, quote="'")]
+            d = dict(states=[dict(name="E", excl=False)] if st else [], rules=erules, header=None, builder=None)
+            text, rd = genlex.render_lsrc(d, rng)
+            insts.append(dict(id="lesc%d" % j, l=text, doc=rd, eff=rd["eff"], inputs=["/* <+ a/b.c '(x) ,|, =?= :[] @$^", "/", "a/bxc", "=="]))
     job = os.path.join(res.wd, "job.json")
     trace = os.path.join(res.wd, "trace.ndjson")
     with open(job, "w") as f:
